@@ -8,6 +8,7 @@ import (
 	"os"
 	"sort"
 	"strings"
+	"sync"
 	"testing"
 	"time"
 
@@ -134,7 +135,10 @@ func TestLocalViews(t *testing.T) {
 		}
 		items := map[string]*item{}
 		failPin, failUnpin := map[string]bool{}, map[string]bool{}
+		var failMu sync.Mutex // the tracker's workers read while the script writes
 		f.D.FailFor = func(kind string, c cid.Cid) bool {
+			failMu.Lock()
+			defer failMu.Unlock()
 			if kind == "pin" {
 				return failPin[c.String()]
 			}
@@ -170,7 +174,9 @@ func TestLocalViews(t *testing.T) {
 			case it.loc == "local" || it.loc == "everywhere":
 				p := mkPin(c, it.loc, it.mode)
 				f.St.Add(ctx, p)
+				failMu.Lock()
 				failPin[k] = op == "fail"
+				failMu.Unlock()
 				if err := f.T.Track(ctx, p); err != nil {
 					t.Fatal(err)
 				}
@@ -178,13 +184,17 @@ func TestLocalViews(t *testing.T) {
 			case it.loc == "remote":
 				p := mkPin(c, it.loc, it.mode)
 				f.St.Add(ctx, p)
+				failMu.Lock()
 				failUnpin[k] = op == "fail"
+				failMu.Unlock()
 				f.T.Track(ctx, p)
 				if op == "fail" {
 					it.lastOp = "remote-unpin-failed"
 				}
 			case it.loc == "":
+				failMu.Lock()
 				failUnpin[k] = op == "fail"
+				failMu.Unlock()
 				f.T.Untrack(ctx, c)
 				it.lastOp = "unpin-" + map[string]string{"fail": "failed", "ok": "ok"}[op]
 			}
@@ -265,13 +275,13 @@ func TestLocalViews(t *testing.T) {
 			default: // local or everywhere, no failed operation
 				exact := (it.mode == api.PinModeRecursive && it.daemon == api.IPFSPinStatusRecursive) || (it.mode == api.PinModeDirect && it.daemon == api.IPFSPinStatusDirect)
 				absent := it.daemon == api.IPFSPinStatusUnpinned || it.daemon == api.IPFSPinStatusIndirect
-				switch {
-				case exact:
+				_ = absent
+				if exact {
 					want = "pinned"
-				case absent:
+				} else {
+					// absent, only indirectly held, or held in the other mode:
+					// IPFS does not hold the expected pin
 					want = "error"
-				default:
-					want = "" // mode mismatch: IPFS has no such status; only cross-view and filter laws
 				}
 			}
 			if want != "" && class(st) != want {
@@ -307,4 +317,31 @@ func TestLocalViews(t *testing.T) {
 		}
 		leg.Case(strings.Join(desc, " "), special && nontrivialFilter, cls...)
 	})
+}
+
+// Regression: an item recorded as recursive but held by IPFS only as a
+// direct pin (and the reverse) was listed as pinned by StatusAll while
+// Status reported pin_error (fixed in /repo).
+func TestRegressModeMismatchListing(t *testing.T) {
+	ctx := context.Background()
+	for _, tc := range []struct {
+		mode api.PinMode
+		held api.IPFSPinStatus
+	}{{api.PinModeRecursive, api.IPFSPinStatusDirect}, {api.PinModeDirect, api.IPFSPinStatusRecursive}} {
+		f := fakes.NewTracker(self, 10, 1)
+		c := gen.Cids[0]
+		f.St.Add(ctx, mkPin(c, "local", tc.mode))
+		f.D.Set(c, tc.held)
+		st := f.T.Status(ctx, c).Status
+		var ls api.TrackerStatus
+		for _, pi := range f.T.StatusAll(ctx, api.TrackerStatusUndefined) {
+			if pi.Cid.Equals(c) {
+				ls = pi.Status
+			}
+		}
+		f.Close()
+		if class(st) != "error" || class(ls) != "error" {
+			t.Fatalf("pin recorded as %s, IPFS holds status %d: Status says %s, the listing says %s; both must be error statuses", tc.mode, tc.held, st, ls)
+		}
+	}
 }
